@@ -64,6 +64,20 @@ def round_dt(x):
     return -r if x < 0 else r
 
 
+def trunc53(x):
+    """Q -> double (mpq_get_d truncates to 53 significant bits) -> Q"""
+    if x == 0:
+        return Fraction(0)
+    n, d = abs(x.numerator), x.denominator
+    e = n.bit_length() - d.bit_length()
+    if (n << max(-e, 0)) < (d << max(e, 0)):
+        e -= 1
+    sh = 52 - e
+    m = (n << sh) // d if sh >= 0 else n // (d << -sh)
+    r = Fraction(m, 1 << sh) if sh >= 0 else Fraction(m * (1 << -sh))
+    return -r if x < 0 else r
+
+
 def zeros(r, c):
     return [[Fraction(0)] * c for _ in range(r)]
 
@@ -203,6 +217,14 @@ def apply_op(s, c):
     if op == "clone":
         m = c.nat()
         return (s.copy(), None) if m <= 4 else (s, "bad")
+    if op == "xclone":
+        d, i, m = c.nat(), c.nat(), c.nat()
+        if d > 1 or i > 1 or m > 4 or (d == 0 and i == 0):
+            return s, "bad"
+        t = s.copy()
+        if d:
+            t.M = [[trunc53(x) for x in row] for row in s.M]    # the values pass through double once
+        return t, None
     if op in ("layoutz", "layouta"):
         if op == "layouta" and c.nat() not in (0, 1, 3, 4):
             return s, "bad"
@@ -441,6 +463,9 @@ def gen_op(rng, s):
         ops = ["tr", "tr", "tri", "clone", "it", "dt"]
     else:
         ops = ["tocsr", "tocsr", "tr", "tr", "clone", "layout", "it", "perm", "perm", "layoutz", "layouta"]
+    if rng.random() < 0.08:
+        d, i = rng.choice([(0, 1), (0, 1), (1, 0), (1, 1)])
+        return "xclone %d %d %d" % (d, i, rng.randrange(5))
     if rng.random() < 0.3:
         # the two-argument members with an aliased or pre-existing target
         alias = ["clonet", "clonet", "copyt", "copys", "convt-same", "convt-same"]
@@ -537,6 +562,14 @@ def perm_enumeration():
                 out.append("64 %s 2 perm %s %s tocsr" % (b, fl(list(p)), fl(list(q))))
     for p in itertools.permutations(range(4)):
         out.append("32 vec 4 1/1 2/1 3/1 4/1 1 vperm %s" % fl(list(p)))
+    # every cross-type clone: 5 formats x (data type, index type) in {same/different}^2 minus same/same x 5 clone modes,
+    # each as a chain X<Q,IT> -> X<DT2,IT2> -> X<Q,IT> with write-after-clone and format-source observations
+    inits = ["csr 2 3 3 0 2 3 3 0 2 1 3 1/3 2/1 3/1", "dense 2 2 4 1/3 2/1 3/1 4/1", "banded 3 4 2 1 3 6 1/3 2/1 3/1 4/1 5/1 6/1",
+             "cscr 4 3 3 0 1 3 3 2 0 1 3 5/1 6/1 7/1 2 1 3", "bcsr 2 3 1 2 2 0 1 1 1 6 1/3 2/1 3/1 4/1 5/1 6/1"]
+    for k, ini in enumerate(inits):
+        for d, i in ((0, 1), (1, 0), (1, 1)):
+            for m in range(5):
+                out.append("%d %s 2 xclone %d %d %d clone %d" % (32 if (k + m) % 2 else 64, ini, d, i, m, m))
     return out
 
 
@@ -603,6 +636,10 @@ CORPUS += [
     "32 banded 3 4 2 1 3 6 1/10 2/3 3/1 4/1 5/1 1/1048577 1 dt",
     "32 bcsr 2 3 2 2 0 0 0 1 perm 2 1 0 2 1 0",               # c02-edge:D9
     "32 csr 2 3 0 0 0 1 graphz",                               # c02-edge:D5
+    # cross-type clones (seeded change missed before: weak clone across index types aliasing the source's values)
+    "32 csr 2 3 3 0 2 3 3 0 2 1 3 1/3 2/1 3/1 3 xclone 0 1 2 xclone 0 1 0 xclone 1 1 3",
+    "64 dense 2 2 4 1/1 2/1 3/1 4/1 3 xclone 0 1 2 xclone 1 0 4 xclone 0 1 1",
+    "32 csr 2 3 0 0 0 2 xclone 0 1 2 xclone 1 0 0",
     "32 dense 2 2 4 1/1 2/1 3/1 4/1 1 convs",
 ]
 
@@ -643,12 +680,16 @@ def parse_segment(seg):
     if c.peek() == "K":
         c.tok()
         K = (c.nat(), c.nat(), c.nat(), c.nat())
+    X = None
+    if c.peek() == "X":
+        c.tok()
+        X = tuple(c.nat() for _ in range(13))
     src = None
     if c.peek() == "S":
         c.tok()
         src = parse_dump(c)
     r = parse_dump(c)
-    r["K"], r["src"], r["AL"] = K, src, AL
+    r["K"], r["src"], r["AL"], r["X"] = K, src, AL, X
     if c.p != len(c.t):
         raise ValueError("trailing tokens in segment")
     return r
@@ -771,6 +812,19 @@ def expected_K(opname, mode, seg):
     return (0, 0, 0, 0)
 
 
+def expected_X(d, i, mode, seg):
+    """aliasing table of the cross-type clone chain a -> b -> c (and a/c), from the documentation of CloneMode and of
+    assign/convert: arrays of a changed type are converted copies; arrays of an unchanged type are shared exactly as the
+    clone mode says (values: shallow only; indices: shallow, layout, weak).  Per pair: value array shared, number of
+    shared index arrays, write-through both ways; last: formatting the source changes the final clone."""
+    hv = seg["has_val"]
+    nidx = {"csr": 2, "bcsr": 2, "cscr": 3, "banded": 1, "dense": 0}[seg["fmt"]] if seg["has_idx"] else 0
+    sv = int(mode == 0 and not d and hv)
+    si = nidx if (mode in (0, 1, 2) and not i) else 0
+    pair = (sv, si, sv, sv)
+    return pair + pair + pair + (sv,)
+
+
 TARGET_OPS = ("trt", "convt", "clonet", "copyt", "layouta")
 
 
@@ -873,6 +927,19 @@ def oracle(case, out):
                     return "%s: SOURCE afterwards: %s" % (where, errs[0])
             elif g["src"] is not None:
                 return "%s: unexpected source report" % where
+            if o[0] == "xclone":
+                if g["X"] is None:
+                    return "%s: no aliasing observation" % where
+                exp = expected_X(int(o[1]), int(o[2]), int(o[3]), g)
+                if g["X"] != exp:
+                    names = ("a/b", "b/c", "a/c")
+                    for q in range(3):
+                        if g["X"][4 * q:4 * q + 4] != exp[4 * q:4 * q + 4]:
+                            return ("%s: cross-type clone (data type %s, index type %s, mode %s), containers %s: (values shared, "
+                                    "index arrays shared, write seen forward, backward) = %s, expected %s" % (
+                                        where, "different" if o[1] == "1" else "same", "different" if o[2] == "1" else "same",
+                                        CLONE_NAMES[int(o[3])], names[q], g["X"][4 * q:4 * q + 4], exp[4 * q:4 * q + 4]))
+                    return "%s: formatting the source changed the cross-type clone" % where
             if o[0] in ("layoutz", "layouta", "graphz"):
                 # rebuilt from the layout / graph: exactly the source's layout (same scalars and index arrays), a value
                 # array of the same length, zero values; the pool allocation must cover the claimed length
@@ -916,7 +983,8 @@ def describe(case):
     keys = ["it:%d" % it, "init:" + s0.fmt, "len:%d" % len(ops)]
     for o in ops:
         keys.append("op:" + o[0] + ((":" + CLONE_NAMES.get(int(o[1]), "?")) if o[0] == "clone" else "")
-                    + ((":kind%s" % o[1]) if o[0] in TARGET_OPS else ""))
+                    + ((":kind%s" % o[1]) if o[0] in TARGET_OPS else "")
+                    + ((":dt%s:it%s:%s" % (o[1], o[2], CLONE_NAMES.get(int(o[3]), "?"))) if o[0] == "xclone" else ""))
     if s0.fmt != "dense" and s0.nnz() == 0:
         keys.append("entry-free")
     if s0.fmt in ("csr", "cscr", "bcsr") and s0.nnz() > 0 and not all(s0.row_has()):
@@ -993,7 +1061,9 @@ def main(argv):
                   "chains of 0..12 operations (format conversion, the 4 clone modes, layout/graph rebuild, transpose in and "
                   "out of place, row/column permutation, index- and data-type round trips, and the two-argument members "
                   "transpose/convert/clone/copy called on the object itself or on a pre-existing target: fresh, same shape, "
-                  "transposed shape, other shape, shallow clone of the source - source and target are both judged); non-trivial = chain length >= 2 "
+                  "transposed shape, other shape, shallow clone of the source - source and target are both judged; cross-type clone "
+                  "chains X<Q,IT> -> X<DT2,IT2> -> X<Q,IT> for every format, type combination and the 5 clone modes with "
+                  "write-after-clone and format-source observations); non-trivial = chain length >= 2 "
                   "or a format change or an entry-free matrix")
     rc = vlib.run_pipeline(PROP, args.tier, args.seed, lean, [st], t0, assumptions=[
         "Index modelled as unbounded Nat (no 32/64-bit overflow at the sizes FEAT can allocate)",
